@@ -47,6 +47,11 @@ def drivers(tier='quick'):
     # the F2 history: two independent choices, three options
     d.append(('two_choices', dict(starts=['a'], nodes=['b', 'c', 'd', 'e', 'f'], edges=[],
                                   choices=[['C1', 'a', ['b', 'c', 'd']], ['C2', 'a', ['e', 'f']]], incompat=[])))
+    # a vector that is only found infeasible while the graph is built (FAST: NoOptionError / exclude set), two 3-option choices
+    d.append(('incompat_mid', dict(starts=['a'], nodes=['b', 'c', 'd', 'e', 'f', 'g'], edges=[],
+                                   choices=[['C1', 'a', ['b', 'c', 'd']], ['C2', 'a', ['e', 'f', 'g']]], incompat=[['b', 'f']])))
+    # three simultaneously active connection choices (graph cache keyed by the previous connection values)
+    d.append(('conn3', list(families.con3('quick'))[6]))
     # hierarchy: nested choice (conditionally active variable)
     d.append(('nested', S('nested')))
     # connection choice with >= 2 scenarios, one of them infeasible for FAST (excluded cache)
